@@ -246,10 +246,72 @@ def ll2_cases(tier, seed):
             ra = _rrows(r2, n, kk, r2.choice([2, 4]), integer, dup); rb = _rrows(r2, kk, m, r2.choice([2, 5]), integer, dup)
             return "%s %s %d" % (_crs(n, kk, ra), _crs(kk, m, rb), srt)
         both("saad", mk)
+    # --- plain_aggregates / tentative_prolongation (no null space) / ilu0: square matrices that store their diagonal
+    def sq_rows(r2, n, integer, kind):
+        rows = []
+        for i in range(n):
+            if kind == "diag": cols = [i]
+            elif kind == "path": cols = [c for c in (i - 1, i, i + 1) if 0 <= c < n]
+            elif kind == "blocks": cols = [c for c in (i - 1, i, i + 1) if 0 <= c < n and c // 3 == i // 3]
+            else:
+                cols = sorted(set([i] + [r2.randrange(n) for _ in range(r2.choice([0, 1, 2, 3]))]))
+                if kind == "shuffled": r2.shuffle(cols)
+            row = []
+            for c in cols:
+                if c == i: v = F(r2.choice([2, 3, 4, 5, 8]))
+                elif kind == "posoff": v = F(r2.choice([1, 2]))
+                else: v = F(r2.choice([-3, -2, -1, -1, 1, 2])) if integer else F(r2.choice([-3, -2, -1, 1]), r2.choice([1, 2, 3]))
+                row.append((c, v))
+            rows.append(row)
+        return rows
+    EPS = [("1/4", "1/16"), ("1/2", "1/4"), ("1/8", "1/64"), ("0", "0"), ("2", "4")]
+    kinds = ["diag", "path", "blocks", "random", "random", "shuffled", "posoff"]
+    fixed_sq = [(1, [[(0, F(3))]]), (2, [[(0, F(1))], [(1, F(1))]]), (1, [[(0, F(0))]]),
+                (3, [[(0, F(2)), (1, F(-1))], [(0, F(-1)), (1, F(2)), (2, F(-1))], [(1, F(-1)), (2, F(2))]]),
+                (4, [[(0, F(4)), (1, F(1))], [(0, F(1)), (1, F(4)), (2, F(1))], [(1, F(1)), (2, F(4)), (3, F(1))], [(2, F(1)), (3, F(4))]]),
+                (7, [[(0, F(2)), (1, F(-1))], [(0, F(-1)), (1, F(2)), (2, F(-1))], [(1, F(-1)), (2, F(2))], [(3, F(5))],
+                     [(4, F(2)), (5, F(-1))], [(4, F(-1)), (5, F(3)), (6, F(-1))], [(5, F(-1)), (6, F(2))]])]
+    for n, rows in fixed_sq:
+        for e1, e2 in EPS[:2]:
+            both("plain_aggregates", lambda integer, n=n, rows=rows, e1=e1, e2=e2: "%s %s %s" % (_crs(n, n, rows), e1, e2))
+        both("ilu0", lambda integer, n=n, rows=rows: _crs(n, n, rows))
+    N = 200 if tier == "quick" else 2000
+    for _ in range(N):
+        n = r.choice([1, 2, 3, 4, 6, 9, 12]); kind = r.choice(kinds); e1, e2 = r.choice(EPS); st = r.getrandbits(48)
+        both("plain_aggregates", lambda integer, n=n, kind=kind, e1=e1, e2=e2, st=st:
+             "%s %s %s" % (_crs(n, n, sq_rows(random.Random(st), n, integer, kind)), e1, e2))
+    # tentative prolongation: ids as plain_aggregates produces them (and arbitrary ones: only aggr[i] >= 0 matters for the memory)
+    fixed_tent = [(0, 0, []), (1, 1, [0]), (1, 0, [-2]), (3, 0, [-2, -2, -2]), (4, 2, [0, 0, 1, 1]), (5, 2, [1, 0, -2, 0, 1]), (3, 1, [-1, 0, -1])]
+    for n, na, ids in fixed_tent:
+        both("tentative", lambda integer, n=n, na=na, ids=ids: "%d %d %d %s" % (n, na, n, " ".join(map(str, ids))))
+    for _ in range(N // 2):
+        n = r.choice([1, 2, 3, 5, 8, 13]); na = r.randint(1, n)
+        ids = [r.choice([-2, -2, -1] + list(range(na)) * 2) for _ in range(n)]
+        both("tentative", lambda integer, n=n, na=na, ids=ids: "%d %d %d %s" % (n, na, n, " ".join(map(str, ids))))
+    # ilu0: also rows without a diagonal entry that have an upper entry (-> "No diagonal value"), explicit zero pivots
+    for _ in range(N):
+        n = r.choice([1, 2, 3, 4, 6, 9]); kind = r.choice(kinds); st = r.getrandbits(48); damage = r.random()
+        def mk(integer, n=n, kind=kind, st=st, damage=damage):
+            r2 = random.Random(st)
+            rows = sq_rows(r2, n, integer, kind)
+            if damage < 0.08 and n > 1:
+                i = r2.randrange(n - 1)
+                rows[i] = [(c, v) for c, v in rows[i] if c != i]
+                if not any(c > i for c, v in rows[i]): rows[i].append((i + 1, F(1)))
+            elif damage < 0.14:
+                i = r2.randrange(n)
+                rows[i] = [(c, (F(0) if c == i else v)) for c, v in rows[i]]
+            return _crs(n, n, rows)
+        both("ilu0", mk)
     return out
 
 LL2_WHAT = {"sort_rows": "backend::sort_rows / detail::sort_row (LowLevel2.v; theorems C10_ll2_sort_row, C10_ll2_sort_rows)",
-            "saad": "backend::spgemm_saad (LowLevel2G.v; theorem C10_ll2_spgemm_saad)"}
+            "saad": "backend::spgemm_saad (LowLevel2G.v; theorem C10_ll2_spgemm_saad)",
+            "plain_aggregates": "coarsening::plain_aggregates (LowLevel2A.v)",
+            "tentative": "coarsening::tentative_prolongation without null space (LowLevel2A.v)",
+            "ilu0": "relaxation::ilu0 constructor (LowLevel2I.v)"}
+# double instantiations whose arithmetic is not exact: no model line, the reference is the plain double run
+LL2_NOMODEL = ("lld_ilu0",)
 
 def run_ll2(ctx, lines):
     def kern(l): return l.split(" ", 2)[1].split("_", 1)[1]
@@ -257,6 +319,14 @@ def run_ll2(ctx, lines):
         return impl_out is not None and impl_out.startswith("{") and "col=[]" not in impl_out
     fails, impl, model = diff_run(ctx, "ll2", lines, nontrivial=nontrivial, shards=8,
                                   theorem="C10-A2 correspondence: raw result arrays of the amgcl kernel vs the arrays of the array-level model with uninitialised cells (coq/LowLevel2*.v)")
+    fails = [f for f in fails if f["op"] not in LL2_NOMODEL]
+    ctx["stats"]["mismatches"] = len(fails)
+    for l in lines:
+        if l.split(" ", 2)[1] in LL2_NOMODEL:
+            cid = l.split(" ", 1)[0]; model[cid] = impl.get(cid)
+            if impl.get(cid) is None or impl[cid].startswith(("CRASH", "UNSUPPORTED")):
+                fails.append(dict(kind="counterexample", case=l, impl=impl.get(cid), model=None, op=l.split(" ", 2)[1], size=len(l),
+                                  theorem="C10-A2: the double build crashed"))
     for f in fails:
         f["theorem"] += " -- " + LL2_WHAT.get(kern(f["case"]), kern(f["case"]))
     seen = set(f["case"] for f in fails)
